@@ -466,6 +466,12 @@ theorem mkUrl_err {o : MagnetOracle} {v : String} {e : Err} (h : mkUrl o v = .er
   unfold mkUrl at h
   split at h <;> simp at h; exact h.symm
 
+theorem mkUrl2_err {o : MagnetOracle} {v : String} {e : Err} (h : mkUrl2 o v = .error e) : e = .url := by
+  unfold mkUrl2 at h
+  split at h
+  · split at h <;> simp at h; exact h.symm
+  · simp at h; exact h.symm
+
 theorem mkUrls_err {o : MagnetOracle} : ∀ {l : List String} {e : Err}, mkUrls o l = .error e → e = .url := by
   intro l
   induction l with
@@ -474,7 +480,7 @@ theorem mkUrls_err {o : MagnetOracle} : ∀ {l : List String} {e : Err}, mkUrls 
     intro e h
     unfold mkUrls at h
     split at h
-    · rename_i e' he; simp at h; subst h; exact mkUrl_err he
+    · rename_i e' he; simp at h; subst h; exact mkUrl2_err he
     · split at h
       · rename_i e' he; simp at h; subst h; exact ih he
       · simp at h
